@@ -23,7 +23,7 @@ type Taint struct {
 	// a function in which the taint originated.
 	CallSites func(*ssa.Function) []ssa.CallInstruction
 	origin    map[*ssa.Function]bool
-	work   []ssa.Value
+	work      []ssa.Value
 	// stores that received a tainted value
 	Sinks map[ssa.Instruction]bool
 	// functions whose return value is tainted
